@@ -338,7 +338,7 @@ def gen_design(rng, size=None, hazards=()):
     # black-box models before the top model: the reader first takes the first .model for the top and
     # re-elects when the real top instantiates it (check_hierarchy), so the first one must be used
     used_models = [s["model"] for s in stmts if s["k"] in ("subckt", "gate")]
-    if rng.random() < 0.12:
+    if rng.random() < 0.25:
         cands = [bb for bb in bbs if bb["declared"] and bb["name"] in used_models]
         if cands:
             first = rng.choice(cands)
@@ -346,7 +346,7 @@ def gen_design(rng, size=None, hazards=()):
             bbs.remove(first)
             bbs.insert(0, first)
             for bb in bbs[1:]:
-                if bb["declared"] and rng.random() < 0.4:
+                if bb["declared"] and rng.random() < 0.5:      # library first, top in the middle or last
                     bb["first"] = True
     # text outside any .model is ignored by the reader
     def junk():
